@@ -170,8 +170,6 @@ Qed.
 
 (* ------------------------------------------------ sums *)
 
-Hypothesis Hnd : match cols with None => True | Some c => NoDup c end.
-
 Definition F_sum_row := map (fun i => count_true (fun j => cell t i j) (cols_or t cols)) (rows_or t rows).
 Definition F_sum_col := map (fun j => count_true (fun i => cell t i j) (rows_or t rows)) (cols_or t cols).
 Definition F_sum := list_sum F_sum_row.
@@ -192,17 +190,6 @@ Proof. unfold L_sum, F_sum. rewrite py_sum_list_sum, L_sum_per_row_gen. reflexiv
 
 Lemma L_sum_per_column_gen : L_sum_per_column t rows cols = F_sum_col.
 Proof. unfold L_sum_per_column, F_sum_col. apply sum_columns_loop0. Qed.
-
-Lemma B_sum_per_row_gen : B_sum_per_row t rows cols = F_sum_row.
-Proof.
-  unfold B_sum_per_row, F_sum_row. destruct cols as [c|]; simpl cols_or.
-  - apply map_ext_in. intros i Hi. apply count_mask; [|exact Hc|exact Hnd].
-    apply wf_row_length; [exact Hwf | apply rs_lt, Hi].
-  - apply map_ext_in. intros i Hi. unfold bcount. apply row_count, rs_lt, Hi.
-Qed.
-
-Lemma B_sum_gen : B_sum t rows cols = F_sum.
-Proof. unfold B_sum, F_sum. rewrite py_sum_list_sum, B_sum_per_row_gen. reflexivity. Qed.
 
 Lemma fold_left_ext_in {A B} (f g : A -> B -> A) l a :
   (forall a x, In x l -> f a x = g a x) -> fold_left f l a = fold_left g l a.
@@ -265,12 +252,34 @@ Proof.
   apply (nth_map_in (fun j => cell t i j) (cols_or t cols) k false 0). lia.
 Qed.
 
+(* only the bitarray row sums (a mask and count) need a duplicate-free column selection *)
+Hypothesis Hnd : match cols with None => True | Some c => NoDup c end.
+
+Lemma B_sum_per_row_gen : B_sum_per_row t rows cols = F_sum_row.
+Proof.
+  unfold B_sum_per_row, F_sum_row. destruct cols as [c|]; simpl cols_or.
+  - apply map_ext_in. intros i Hi. apply count_mask; [|exact Hc|exact Hnd].
+    apply wf_row_length; [exact Hwf | apply rs_lt, Hi].
+  - apply map_ext_in. intros i Hi. unfold bcount. apply row_count, rs_lt, Hi.
+Qed.
+
+Lemma B_sum_gen : B_sum t rows cols = F_sum.
+Proof. unfold B_sum, F_sum. rewrite py_sum_list_sum, B_sum_per_row_gen. reflexivity. Qed.
+
 End Reduce.
 
 (* ------------------------------------------------------------------ the operations *)
 
+(* selections only have to be in range: they may be unsorted and may repeat an index *)
 Definition red_ok (t : table) (rows cols : option (list nat)) : Prop :=
-  opt_sel_ok (height t) rows /\ opt_sel_ok (width t) cols.
+  opt_in_range (height t) rows /\ opt_in_range (width t) cols.
+
+(* ... except for sums over a column selection along axis None / 1: the bitarray back-end counts
+   through a mask, i.e. treats the selection as a set *)
+Definition nodup_opt (o : option (list nat)) : Prop :=
+  match o with None => True | Some c => NoDup c end.
+Definition sum_ok (axis : option nat) (cols : option (list nat)) : Prop :=
+  axis = Some 0 \/ nodup_opt cols.
 
 Lemma opt_sel_ok_nodup n o : opt_sel_ok n o -> match o with None => True | Some c => NoDup c end.
 Proof. destruct o; simpl; [intros [_ H]; exact H | auto]. Qed.
@@ -280,7 +289,7 @@ Theorem all_op_correct b t axis rows cols :
   all_op b t axis rows cols
   = if axis_ok axis then ROk (S_all t axis (rows_or t rows) (cols_or t cols)) else RErr E_Type.
 Proof.
-  intros Hwf [Hr Hc]. apply opt_sel_ok_range in Hr, Hc. unfold all_op.
+  intros Hwf [Hr Hc]. unfold all_op.
   destruct axis as [[|[|a]]|]; simpl; try reflexivity; destruct b; simpl; f_equal; f_equal.
   - apply L_all_per_column_gen; assumption.
   - apply N_all_col_gen; assumption.
@@ -298,7 +307,7 @@ Theorem any_op_correct b t axis rows cols :
   any_op b t axis rows cols
   = if axis_ok axis then ROk (S_any t axis (rows_or t rows) (cols_or t cols)) else RErr E_Type.
 Proof.
-  intros Hwf [Hr Hc]. apply opt_sel_ok_range in Hr, Hc. unfold any_op.
+  intros Hwf [Hr Hc]. unfold any_op.
   destruct axis as [[|[|a]]|]; simpl; try reflexivity; destruct b; simpl; f_equal; f_equal.
   - apply L_any_per_column_gen; assumption.
   - apply N_any_col_gen; assumption.
@@ -312,22 +321,21 @@ Proof.
 Qed.
 
 Theorem sum_op_correct b t axis rows cols :
-  wf t -> red_ok t rows cols ->
+  wf t -> red_ok t rows cols -> sum_ok axis cols ->
   sum_op b t axis rows cols
   = if axis_ok axis then ROk (S_sum t axis (rows_or t rows) (cols_or t cols)) else RErr E_Type.
 Proof.
-  intros Hwf [Hr Hc]. pose proof (opt_sel_ok_nodup _ _ Hc) as Hnd.
-  apply opt_sel_ok_range in Hr, Hc. unfold sum_op.
+  intros Hwf [Hr Hc] Hs. unfold sum_op.
   destruct axis as [[|[|a]]|]; simpl; try reflexivity; destruct b; simpl; f_equal; f_equal.
   - apply L_sum_per_column_gen; assumption.
   - apply N_sum_col_gen; assumption.
   - apply B_sum_per_column_gen; assumption.
   - apply L_sum_per_row_gen; assumption.
   - apply N_sum_row_gen; assumption.
-  - apply B_sum_per_row_gen; assumption.
+  - destruct Hs as [E|Hnd]; [discriminate|]. apply B_sum_per_row_gen; assumption.
   - apply L_sum_gen; assumption.
   - apply N_sum_none_gen; assumption.
-  - apply B_sum_gen; assumption.
+  - destruct Hs as [E|Hnd]; [discriminate|]. apply B_sum_gen; assumption.
 Qed.
 
 (* all_i / any_i: flags, then the index translation of each back-end (Lemmas/C01.v) *)
@@ -336,7 +344,7 @@ Theorem all_i_correct b t axis rows cols :
   all_i_op b t axis rows cols
   = if axis_ok (Some axis) then ROk (S_all_i t axis (rows_or t rows) (cols_or t cols)) else RErr E_Type.
 Proof.
-  intros Hwf [Hr Hc]. apply opt_sel_ok_range in Hr, Hc. unfold all_i_op.
+  intros Hwf [Hr Hc]. unfold all_i_op.
   destruct axis as [|[|a]]; simpl; try reflexivity; destruct b; simpl; f_equal; f_equal.
   - unfold L_all_i. rewrite L_all_per_column_gen by assumption. apply (abs_index_cols t rows cols).
   - unfold N_all_i. rewrite N_all_col_gen by assumption. apply (N_index_cols t rows cols).
@@ -351,7 +359,7 @@ Theorem any_i_correct b t axis rows cols :
   any_i_op b t axis rows cols
   = if axis_ok (Some axis) then ROk (S_any_i t axis (rows_or t rows) (cols_or t cols)) else RErr E_Type.
 Proof.
-  intros Hwf [Hr Hc]. apply opt_sel_ok_range in Hr, Hc. unfold any_i_op.
+  intros Hwf [Hr Hc]. unfold any_i_op.
   destruct axis as [|[|a]]; simpl; try reflexivity; destruct b; simpl; f_equal; f_equal.
   - unfold L_any_i. rewrite L_any_per_column_gen by assumption. apply (abs_index_cols t rows cols).
   - unfold N_any_i. rewrite N_any_col_gen by assumption. apply (N_index_cols t rows cols).
